@@ -224,7 +224,15 @@ def _observe_methods(obj, faces, out, json_names=None):
         if cls.__name__ in ("Polygon", "ConvexPolygon"):
             # in-plane probes
             pass
-        out["is_inside(probes)"] = ("bools", tuple(bool(b) for b in np.asarray(obj.is_inside(pts)).ravel()))
+        ans = np.asarray(obj.is_inside(pts)).ravel()
+        # a probe whose answer changes when it is nudged by 1e-7 of the size sits on the boundary (it happens for non-convex
+        # solids, whose faces the centre-to-vertex rays may graze): its answer is not an observable -> None
+        sz = float(np.max(np.linalg.norm(pts - pts.mean(axis=0), axis=1))) + 1e-300
+        stable = np.ones(len(pts), dtype=bool)
+        for dlt in (np.array([1.0, 0.7, -0.4]), np.array([-0.6, 1.0, 0.8]), np.array([0.5, -0.9, 1.0])):
+            for sgn in (1.0, -1.0):
+                stable &= (np.asarray(obj.is_inside(pts + sgn * 1e-7 * sz * dlt)).ravel() == ans)
+        out["is_inside(probes)"] = ("bools", tuple((bool(b) if ok else None) for b, ok in zip(ans, stable)))
     except NotImplementedError:
         pass
     except Exception as e:
@@ -375,7 +383,10 @@ def compare(obs_a, obs_b, size, tol=1e-9, cond=1.0):
             continue
         kind = a[0]
         sc = max(size, 1e-300) ** degree(name) if degree(name) else max(1.0, cond)
-        if kind == "raise" or kind == "repr" or kind == "set" or kind == "bools":
+        if kind == "bools":
+            if len(a[1]) != len(b[1]) or any(x is not None and y is not None and x != y for x, y in zip(a[1], b[1])):
+                diffs.append((name, a, b))
+        elif kind == "raise" or kind == "repr" or kind == "set":
             if a[1] != b[1]:
                 diffs.append((name, a, b))
         elif kind == "num":
@@ -437,6 +448,39 @@ def base_shape(rng, cls, flavour):
     """flavour 'regular': has circum-/in-balls (box, square); 'generic': chiral, off-origin, none of them."""
     S = shapes_mod()
     off = rng.uniform(-1, 1, size=3) * 3 + np.array([2.0, -1.0, 1.5])
+    if cls == "Polyhedron" and flavour == "nonconvex-face":
+        # right prism over an L / U / Z polygon with the caps given as ONE non-convex face each (faces_are_convex False):
+        # centroid and is_inside work, volume / surface_area / inertia raise - so do the exports that ask for them. An
+        # operation that raises half-way must leave the (off-origin) shape as it was.
+        outline = [[(0, 0), (3, 0), (3, 1), (1, 1), (1, 2), (0, 2)],
+                   [(0, 0), (3, 0), (3, 2), (2, 2), (2, 1), (1, 1), (1, 2), (0, 2)],
+                   [(1.5, 1), (1, 1), (1, 0), (0, 0), (0, 1), (.5, 1), (.5, 2), (1.5, 2)]][int(rng.integers(3))]
+        n = len(outline)
+        h = float(rng.uniform(0.5, 2.0))
+        V = np.array([(x, y, 0.0) for x, y in outline] + [(x, y, h) for x, y in outline])
+        V = V @ gen.random_rotation(rng).T + off * float(rng.uniform(1.0, 3.0))
+        F = [list(range(n - 1, -1, -1)), list(range(n, 2 * n))] + [[i, (i + 1) % n, n + (i + 1) % n, n + i] for i in range(n)]
+        return S.Polyhedron(V, F)
+    if cls in ("ConvexPolyhedron", "Polyhedron", "ConvexSpheropolyhedron") and flavour == "aligned-centred":
+        # centred at the origin with the principal axes along the coordinate axes (cuboid, square prisms with two equal
+        # moments, a D2-symmetric chiral twisted cuboid): eigh returns signed permutation matrices here, the corner where
+        # a sign convention in diagonalize_inertia turns a rotation into a reflection
+        import itertools
+        kind = int(rng.integers(4))
+        a, b, c = [(1.0, 2.0, 3.0), (1.0, 1.0, 2.5), (2.0, 2.0, 0.5), (1.0, 1.6, 2.3)][kind]
+        perm = rng.permutation(3)
+        v = np.array(list(itertools.product([-1, 1], repeat=3)), dtype=float) * np.array([a, b, c])[perm] / 2
+        if kind == 3:
+            # twist the top face against the bottom one about z (keeps the three two-fold axes, destroys the mirrors)
+            t = 0.35
+            Rz = np.array([[np.cos(t), -np.sin(t), 0], [np.sin(t), np.cos(t), 0], [0, 0, 1.0]])
+            v = np.where(v[:, 2:3] > 0, v @ Rz.T, v @ Rz)
+        if cls == "ConvexPolyhedron":
+            return S.ConvexPolyhedron(v)
+        if cls == "ConvexSpheropolyhedron":
+            return S.ConvexSpheropolyhedron(v, float(rng.uniform(0.1, 0.5)))
+        cp = S.ConvexPolyhedron(v)
+        return S.Polyhedron(np.array(cp.vertices), [np.array(f) for f in cp.faces], faces_are_convex=True)
     if cls in ("ConvexPolyhedron", "Polyhedron", "ConvexSpheropolyhedron"):
         if flavour in ("regular", "triangulated"):
             import itertools
